@@ -264,8 +264,9 @@ func (p *path) addRule(
 		verb = http.MethodPatch
 		tmpl = v.Patch
 	case *annotations.HttpRule_Custom:
-		verb = strings.ToUpper(v.Custom.Kind)
-		tmpl = v.Custom.Path
+		// (getters: a custom pattern may come without its message)
+		verb = strings.ToUpper(v.Custom.GetKind())
+		tmpl = v.Custom.GetPath()
 	default:
 		return fmt.Errorf("unsupported pattern %v", v)
 	}
